@@ -173,13 +173,14 @@ theorem sequential_unroll_reduces (c : Circuit) (n : Nat) (dPort qPort : Name) (
 /-- the sequential circuits the statement ranges over: lint-clean, at least one flop, all instances of one blackbox type
     having the data pins, every instance with all its pin nodes (typed as pins), and every pin-typed node belonging to
     an instance.
-    Two fields were ADDED because the theorems below are false without them (counterexamples in
+    One field was ADDED because the theorems below are false without it (counterexample in
     `CG/Proofs/UnrollSeqSemCex.lean`):
     `outsOrdinary` — no pin node is marked as output (a pin has no entry in the io map, so `ioName ioMap o t` would be
-      the empty name, which the unrolled circuit does not constrain);
-    `noClash` — no node of `c` carries an exposed pin name `inst_pin`: `sequential_unroll` deletes the non-data pins by
-      those names *after* stripping, so with `ignore_pins = ["clk"]` an unrelated node called `f_clk` is deleted from the
-      logic (and with ignored data pins unrelated nodes `f_d`, `f_q` would be wired up as the flop) -/
+      the empty name, which the unrolled circuit does not constrain).
+    The former field `noClash` (no node of `c` called `inst_pin` for ANY pin) is gone: since the library fix K39
+    `sequential_unroll` no longer deletes nodes named like *ignored* pins; what remains is the theorem hypothesis
+    `hclash` below, which only speaks about the pins that are actually exposed (it depends on `ignore_pins`, so it
+    cannot be a field here) -/
 structure SeqGood (c : Circuit) (bb : BBox) (dPort qPort : Name) : Prop where
   clean : LintClean c
   nonempty : c.bbs ≠ []
@@ -192,12 +193,11 @@ structure SeqGood (c : Circuit) (bb : BBox) (dPort qPort : Name) : Prop where
   pinsOwned : ∀ x, (c.ty? x = some "bb_input" ∨ c.ty? x = some "bb_output") →
     ∃ u ∈ c.bbs, ∃ g ∈ bb.ins ++ bb.outs, x = u.1 ++ "." ++ g
   outsOrdinary : ∀ o ∈ c.outputs, C06.isPin c o = false
-  noClash : ∀ u ∈ c.bbs, ∀ g ∈ bb.ins ++ bb.outs, c.has (u.1 ++ "_" ++ g) = false
 
 /-- glue: the helper lemmas of `CG/Proofs/UnrollSeqSem*.lean` are stated for mirrored copies of the vocabulary above -/
 theorem SeqGood.toHelper {c : Circuit} {bb : BBox} {dPort qPort : Name} (hc : SeqGood c bb dPort qPort) :
     USS.SeqGood' c bb dPort qPort :=
-  ⟨hc.clean, hc.oneType, hc.instNodup, hc.dIn, hc.qOut, hc.pinsPresent, hc.outsOrdinary, hc.noClash⟩
+  ⟨hc.clean, hc.oneType, hc.instNodup, hc.dIn, hc.qOut, hc.pinsPresent, hc.outsOrdinary⟩
 
 /-- a run of the sequential circuit over `n` cycles: one consistent valuation of `c` per cycle (flop outputs are free
     within a cycle), each flop's q pin at cycle t+1 carrying the value its d pin had at cycle t -/
@@ -211,10 +211,17 @@ def SeqRun (c : Circuit) (dPort qPort : Name) (n : Nat) (w : Nat → Val) : Prop
     value every flop starts at that value — for every choice of add_flop_outputs, ignore_pins, remove_unloaded and every
     set-iteration order.
     `hig` (ADDED): the data pins are not among the ignored pins; otherwise another pin whose exposed name happens to be
-    `inst_d` is taken for the data pin (counterexample in `CG/Proofs/UnrollSeqSemCex.lean`) -/
+    `inst_d` is taken for the data pin (counterexample in `CG/Proofs/UnrollSeqSemCex.lean`).
+    `hclash` (ADDED, weakened with the library fix K39): no node of `c` carries the exposed name `inst_pin` of a pin
+    that is NOT ignored.  The non-data pins are deleted by those names after stripping, and the data pins are looked up
+    by them.  For dot-free instance and pin names a clash makes `strip_blackboxes` itself fail (K32), but with an
+    instance called `a.b` the pins are exposed as `a_b_pin` while `sequential_unroll` deletes / wires up the unrelated
+    nodes `a.b_pin` (counterexample `Dot` in `CG/Proofs/UnrollSeqSemCex.lean`).  Nodes named like *ignored* pins
+    (e.g. `f_clk` with `ignore_pins = ["clk"]`) are harmless now (regression example `Clk` there) -/
 theorem sequential_unroll_sem (c : Circuit) (bb : BBox) (n : Nat) (dPort qPort : Name) (ignore : List Name) (afo : Bool)
     (initStr : Option String) (ru : Bool) (pfx : String) (ord : Ord) (hord : OrdOK ord)
     (hc : SeqGood c bb dPort qPort) (hig : dPort ∉ ignore ∧ qPort ∉ ignore)
+    (hclash : ∀ u ∈ c.bbs, ∀ g ∈ bb.ins ++ bb.outs, g ∉ ignore → c.has (u.1 ++ "_" ++ g) = false)
     (hinit : ∀ s, initStr = some s → s = "0" ∨ s = "1")
     (uc : Circuit) (ioMap : List (Name × List Name))
     (h : Tx.sequentialUnroll c n dPort qPort ignore afo initStr [] ru pfx ord = .ok (uc, ioMap))
@@ -223,13 +230,14 @@ theorem sequential_unroll_sem (c : Circuit) (bb : BBox) (n : Nat) (dPort qPort :
       (∀ o ∈ c.outputs, ∀ t, t < n → v (Tx.ioName ioMap o t) = w t o) ∧
       (∀ u ∈ c.bbs, ∀ t, t < n → v (Tx.ioName ioMap (u.1 ++ "_" ++ dPort) t) = w t (u.1 ++ "." ++ dPort)) ∧
       (∀ s, initStr = some s → ∀ u ∈ c.bbs, w 0 (u.1 ++ "." ++ qPort) = (s == "1")) :=
-  USS.seq_sound c bb n dPort qPort ignore afo initStr ru pfx ord hord hc.toHelper hig hinit uc ioMap h v hv
+  USS.seq_sound c bb n dPort qPort ignore afo initStr ru pfx ord hord hc.toHelper hclash hig hinit uc ioMap h v hv
 
 /-- **C09 (sequential_unroll, completeness).** conversely every run (starting from the given initial value when there is
     one) is realised by a consistent valuation of the unrolled circuit that shows it at the io map's nodes -/
 theorem sequential_unroll_complete (c : Circuit) (bb : BBox) (n : Nat) (dPort qPort : Name) (ignore : List Name) (afo : Bool)
     (initStr : Option String) (ru : Bool) (pfx : String) (ord : Ord) (hord : OrdOK ord)
     (hc : SeqGood c bb dPort qPort) (hig : dPort ∉ ignore ∧ qPort ∉ ignore)
+    (hclash : ∀ u ∈ c.bbs, ∀ g ∈ bb.ins ++ bb.outs, g ∉ ignore → c.has (u.1 ++ "_" ++ g) = false)
     (hinit : ∀ s, initStr = some s → s = "0" ∨ s = "1")
     (uc : Circuit) (ioMap : List (Name × List Name))
     (h : Tx.sequentialUnroll c n dPort qPort ignore afo initStr [] ru pfx ord = .ok (uc, ioMap))
@@ -238,7 +246,7 @@ theorem sequential_unroll_complete (c : Circuit) (bb : BBox) (n : Nat) (dPort qP
     ∃ v, Consistent uc v ∧
       (∀ o ∈ c.outputs, ∀ t, t < n → v (Tx.ioName ioMap o t) = w t o) ∧
       (∀ u ∈ c.bbs, ∀ t, t < n → v (Tx.ioName ioMap (u.1 ++ "_" ++ dPort) t) = w t (u.1 ++ "." ++ dPort)) :=
-  USS.seq_complete c bb n dPort qPort ignore afo initStr ru pfx ord hord hc.toHelper hig hinit uc ioMap h w hw hw0
+  USS.seq_complete c bb n dPort qPort ignore afo initStr ru pfx ord hord hc.toHelper hclash hig hinit uc ioMap h w hw hw0
 
 /-- non-vacuity: a toggle flop (`q <- q xor en`), unrolled for two cycles from initial value 0 -/
 def togSeq : Circuit :=
@@ -253,13 +261,16 @@ example : (Tx.sequentialUnroll togSeq 2 "d" "q" ["clk"] false (some "0") [] true
     some (18, ["en_cg_unroll_0", "en_cg_unroll_1"], ["q_cg_unroll_0", "q_cg_unroll_1"]) := by decide +kernel
 example : SeqGood togSeq { name := "ff", ins := ["clk", "d"], outs := ["q"] } "d" "q" := by
   refine ⟨Limit.lintClean_of_checks togSeq ⟨by decide, by decide, by decide⟩ (by decide) (by decide) (by decide),
-    by decide, by decide, by decide, by decide, by decide, by decide, ?_, by decide, by decide⟩
+    by decide, by decide, by decide, by decide, by decide, by decide, ?_, by decide⟩
   intro x hx
   have hm : x ∈ togSeq.nodeNames := by
     rcases hx with hx | hx <;> exact (Circuit.has_iff_mem _ _).1 (Circuit.has_of_ty? hx)
   revert hx
   revert x
   decide
+/-- the remaining side hypotheses of the two theorems hold for the example call (`ignore_pins = ["clk"]`) -/
+example : ("d" ∉ ["clk"] ∧ "q" ∉ ["clk"]) ∧
+    ∀ u ∈ togSeq.bbs, ∀ g ∈ ["clk", "d"] ++ ["q"], g ∉ ["clk"] → togSeq.has (u.1 ++ "_" ++ g) = false := by decide
 
 
 /-! non-vacuity: a toggling flip-flop loop unrolled twice -/
